@@ -192,27 +192,28 @@ Definition dummy_seg : segment :=
   {| seg_data := []; seg_first := 0; seg_time := 0; seg_period := 0; seg_signed := sgn |}.
 (* the checker's view of "now": settings in force, ground truth so far *)
 Definition cur (s : sstate) : binfo :=
-  mkbi (s_npre s) (s_nsamp s) (s_ts s) F0 (s_G s) dummy_seg (s_S s) (s_epoch s) (s_all s) [].
+  mkbi (s_npre s) (s_nsamp s) (s_ts s) F0 (s_G s) dummy_seg (s_C s) (s_acc s) (s_epoch s) (s_all s) [].
 Definition s_end (s : sstate) : Z := F0 + zlen (s_G s).
 (* candidates below s_A are accounted for *)
-Definition s_A (s : sstate) : Z := Z.max (s_S s + s_npre s) (s_end s - (s_nsamp s - s_npre s)).
+Definition s_A (s : sstate) : Z := s_acc s.
 
 Record Inv2 (d : dsp) (s : sstate) : Prop := {
   v_inv1 : Inv1 F0 p d (s_G s);
   v_npre : d_npre d = s_npre s;
   v_nsamp : d_nsamp d = s_nsamp s;
   v_ts : d_ts d = s_ts s;
-  v_S : s_S s <= s_end s;
-  v_S0 : F0 <= s_S s;
+  v_S : s_C s <= s_acc s;
+  v_S0 : F0 <= s_H s /\ s_H s <= s_end s /\ s_end s - zlen (st_data (d_stream d)) <= s_H s /\
+         (s_acc s = s_C s \/ s_acc s <= s_end s);
   v_sub : forall u, In u (s_epoch s) -> In u (s_all s);
   v_last : d_last d = far_past \/ In (d_last d) (s_all s);
   v_lastA : d_last d < s_A s;
   v_lastE : d_last d < s_end s;
   v_keep : s_end s - zlen (st_data (d_stream d)) + s_npre s <= s_A s;
   v_edge : ts_edge (s_ts s) = true ->
-           forall k, s_S s + s_npre s <= k < s_A s -> edge_crit (cur s) k = true -> acc_edge (s_all s) (s_nsamp s) k;
+           forall k, s_C s <= k < s_A s -> edge_crit (cur s) k = true -> acc_edge (s_all s) (s_nsamp s) k;
   v_level : ts_level (s_ts s) = true ->
-            forall k, s_S s + s_npre s <= k < s_A s -> level_crit (cur s) k = true -> acc_level (s_all s) (s_nsamp s) k;
+            forall k, s_C s <= k < s_A s -> level_crit (cur s) k = true -> acc_level (s_all s) (s_nsamp s) k;
   v_epoch_le : forall u, In u (s_epoch s) -> u <= d_last d;
   v_epoch_last : forall q rest, rev (s_epoch s) = q :: rest -> q = d_last d
 }.
@@ -223,18 +224,17 @@ Definition block_ok4 (b : binfo) : Prop := sound b /\ edge_complete b /\ level_c
 Lemma block_step d s sg :
   Inv2 d s -> seg_period sg = p -> seg_signed sg = sgn -> seg_first sg = F0 + zlen (s_G s) ->
   exists d' recs, process_block d sg = Ok (d', recs) /\
-    block_ok4 (mkbi (s_npre s) (s_nsamp s) (s_ts s) F0 (s_G s ++ seg_data sg) sg (s_S s) (s_epoch s) (s_all s) recs) /\
-    Inv2 d' (mkss (s_npre s) (s_nsamp s) (s_ts s) (s_G s ++ seg_data sg) (s_S s)
-                  (s_epoch s ++ map r_frame recs) (s_all s ++ map r_frame recs)).
+    block_ok4 (block_info F0 s sg recs) /\
+    Inv2 d' (after_block_ss F0 s sg (map r_frame recs)).
 Proof.
   intros [HI Hnp Hns Hts HS HS0 Hsub Hlast HlastA HlastE Hkeep Hedge Hlevel Hle Hlst] Hper Hsg Hfirst.
   destruct (process_block_spec F0 p d (s_G s) sg HI Hfirst Hper) as [E [L [A [idx [recs [Hpb [Hsc [HF [Hst [_ [_ HI']]]]]]]]]]].
   pose proof HI as [_ Hp3 Hs1 Hmax _ _ _].
   exists (after_block (appended d sg) idx), recs. split; [exact Hpb|].
   set (d1 := appended d sg) in *. set (st1 := d_stream d1) in *.
-  set (b := mkbi (s_npre s) (s_nsamp s) (s_ts s) F0 (s_G s ++ seg_data sg) sg (s_S s) (s_epoch s) (s_all s) recs).
-  set (s' := mkss (s_npre s) (s_nsamp s) (s_ts s) (s_G s ++ seg_data sg) (s_S s)
-                  (s_epoch s ++ map r_frame recs) (s_all s ++ map r_frame recs)).
+  set (b := block_info F0 s sg recs).
+  set (s' := after_block_ss F0 s sg (map r_frame recs)).
+  unfold s_A in *.
   set (npre := s_npre s) in *. set (nsamp := s_nsamp s) in *. set (ts := s_ts s) in *.
   set (F1 := st_first st1). set (nd := zlen (st_data st1)).
   set (lold := zlen (st_data (d_stream d))) in *.
@@ -242,7 +242,7 @@ Proof.
   pose proof (zlen_nonneg (seg_data sg)) as Hnn.
   assert (HF1 : F1 = s_end s - lold) by (unfold F1, st1, d1, s_end; cbn; unfold lold; lia).
   assert (Hnd : nd = lold + zlen (seg_data sg)) by (unfold nd, st1, d1; cbn; now rewrite zlen_app).
-  assert (Hend' : s_end s' = s_end s + zlen (seg_data sg)) by (unfold s_end, s'; cbn [s_G]; rewrite zlen_app; lia).
+  assert (Hend' : s_end s' = s_end s + zlen (seg_data sg)) by (unfold s_end, s', after_block_ss; cbn [s_G]; rewrite zlen_app; lia).
   assert (HendF : s_end s' = F1 + nd) by lia.
   assert (Hsg1 : st_signed st1 = sgn) by (unfold st1, d1; cbn; exact Hsg).
   assert (Hd1 : d_npre d1 = npre /\ d_nsamp d1 = nsamp /\ d_ts d1 = ts /\ d_last d1 = d_last d).
@@ -257,7 +257,8 @@ Proof.
   set (e := nd + npre - nsamp).
   assert (Hdec : dec_end b = F1 + e).
   { change (dec_end b) with (s_end s' - (nsamp - npre)). rewrite HendF. unfold e. lia. }
-  assert (HfirstC : first_cand b = s_S s + npre) by reflexivity.
+  assert (HfirstC : first_cand b = s_C s) by reflexivity.
+  destruct HS0 as [HH0 [HH1 [HH2 HH3]]].
   (* trigger frames *)
   assert (Htr : map r_frame recs = map (fun i => F1 + i) idx).
   { apply (cut_frames st1 (d_npre d) (d_nsamp d)). exact HF. }
@@ -291,11 +292,14 @@ Proof.
   (* all triggers of the block lie in [F1 + npre, dec_end) *)
   assert (Htr_range : forall t, In t (trigs b) -> F1 + npre <= t < F1 + e).
   { intros t Ht. apply Hin_tr in Ht. destruct Ht as [i [Hi ->]]. destruct (SR i Hi). unfold e. lia. }
-  assert (Hkeep' : F1 + npre <= s_A s) by (rewrite HF1; exact Hkeep).
-  assert (HA_mono : s_A s <= s_A s').
-  { unfold s_A. cbn [s_S s_npre s_nsamp s']. fold npre nsamp. rewrite Hend'. lia. }
-  assert (HA' : s_A s' = Z.max (s_S s + npre) (F1 + e)).
-  { unfold s_A. cbn [s_S s_npre s_nsamp s']. fold npre nsamp. unfold e. lia. }
+  assert (Hkeep' : F1 + npre <= s_acc s) by (rewrite HF1; exact Hkeep).
+  assert (HA' : s_acc s' = Z.max (s_acc s) (F1 + e)).
+  { unfold s', after_block_ss. cbn [s_acc]. fold npre nsamp.
+    change (F0 + zlen (s_G s ++ seg_data sg)) with (s_end s'). rewrite HendF. unfold e. f_equal. lia. }
+  assert (HH' : s_H s' = Z.max (s_H s) (F1 + nd - nsamp)).
+  { unfold s', after_block_ss. cbn [s_H]. fold nsamp.
+    change (F0 + zlen (s_G s ++ seg_data sg)) with (s_end s'). now rewrite HendF. }
+  assert (HC' : s_C s' = s_C s) by reflexivity.
   assert (Hlen_le : lold <= zlen (s_G s)).
   { destruct (i1_stream _ _ _ _ HI) as [[H1 _ _]|[H1 H2]]; [exact H1|]. unfold lold. rewrite H1, H2. reflexivity. }
   assert (Hfar : d_last d = far_past -> d_last d + nsamp <= F1 + npre).
@@ -313,14 +317,14 @@ Proof.
   { intros t Ht. unfold all_trigs. apply in_or_app. now left. }
   assert (Hall_r : forall i, In i idx -> In (F1 + i) (all_trigs b)).
   { intros i Hi. unfold all_trigs. apply in_or_app. right. apply Hin_tr. eauto. }
-  assert (HEC : edge_complete b).
-  { intros Hte k [Hk1 Hk2] Hck. rewrite HfirstC in Hk1. rewrite Hdec in Hk2.
-    change (bi_ts b) with ts in Hte. unfold edge_accounted. change (bi_nsamp b) with nsamp.
-    destruct (Z.lt_ge_cases k (s_A s)) as [HkA|HkA].
+  assert (HECg : ts_edge ts = true -> forall k, s_C s <= k < Z.max (s_acc s) (F1 + e) -> edge_crit b k = true ->
+                 acc_edge (all_trigs b) nsamp k).
+  { intros Hte k [Hk1 Hk2] Hck.
+    destruct (Z.lt_ge_cases k (s_acc s)) as [HkA|HkA].
     - (* accounted before this block *)
-      assert (Hke : k < s_end s) by (unfold s_A in HkA; fold npre nsamp in HkA; lia).
+      assert (Hke : k < s_end s) by lia.
       rewrite (Hcur_e k Hke) in Hck.
-      destruct (Hedge Hte k ltac:(fold npre; lia) Hck) as [t [Ht Hr]]. exists t. split; [auto|exact Hr].
+      destruct (Hedge Hte k ltac:(lia) Hck) as [t [Ht Hr]]. exists t. split; [auto|exact Hr].
     - destruct (Z.lt_ge_cases k (F1 + fp)) as [Hkf|Hkf].
       + (* between the accounted range and this scan: dead time of the last trigger *)
         assert (Hk3 : k < d_last d + nsamp) by lia.
@@ -334,13 +338,16 @@ Proof.
         destruct (el_complete _ _ _ _ _ _ _ SE (k - F1) Hki Hck') as [Hin|[t [Ht Hr]]].
         * exists k. split; [|now left]. replace k with (F1 + (k - F1)) by lia. apply Hall_r, SI. now left.
         * exists (F1 + t). split; [apply Hall_r, SI; now left|]. right. lia. }
-  assert (HLC : level_complete b).
+  assert (HEC : edge_complete b).
   { intros Hte k [Hk1 Hk2] Hck. rewrite HfirstC in Hk1. rewrite Hdec in Hk2.
-    change (bi_ts b) with ts in Hte. unfold level_accounted. change (bi_nsamp b) with nsamp.
-    destruct (Z.lt_ge_cases k (s_A s)) as [HkA|HkA].
-    - assert (Hke : k < s_end s) by (unfold s_A in HkA; fold npre nsamp in HkA; lia).
+    change (bi_ts b) with ts in Hte. apply (HECg Hte k); [lia|exact Hck]. }
+  assert (HLCg : ts_level ts = true -> forall k, s_C s <= k < Z.max (s_acc s) (F1 + e) -> level_crit b k = true ->
+                 acc_level (all_trigs b) nsamp k).
+  { intros Hte k [Hk1 Hk2] Hck.
+    destruct (Z.lt_ge_cases k (s_acc s)) as [HkA|HkA].
+    - assert (Hke : k < s_end s) by lia.
       rewrite (Hcur_l k Hke) in Hck.
-      destruct (Hlevel Hte k ltac:(fold npre; lia) Hck) as [t [Ht Hr]]. exists t. split; [auto|exact Hr].
+      destruct (Hlevel Hte k ltac:(lia) Hck) as [t [Ht Hr]]. exists t. split; [auto|exact Hr].
     - destruct (Z.lt_ge_cases k (F1 + fp)) as [Hkf|Hkf].
       + assert (Hk3 : k < d_last d + nsamp) by lia.
         destruct Hlast as [Hfp0|Hin]; [specialize (Hfar Hfp0); lia|].
@@ -352,6 +359,9 @@ Proof.
         destruct (ll_complete _ _ _ _ _ _ _ _ _ SL (k - F1) Hki Hck') as [Hin|[f [Hf Hr]]].
         * exists k. split; [|lia]. replace k with (F1 + (k - F1)) by lia. apply Hall_r, SI. right. now left.
         * exists (F1 + f). split; [apply Hall_r, SI; now left|]. lia. }
+  assert (HLC : level_complete b).
+  { intros Hte k [Hk1 Hk2] Hck. rewrite HfirstC in Hk1. rewrite Hdec in Hk2.
+    change (bi_ts b) with ts in Hte. apply (HLCg Hte k); [lia|exact Hck]. }
   assert (Hc0g : d_last d - F1 + auto_dly_of d1 <= first_potential_auto d1 /\ nsamp <= auto_dly_of d1).
   { unfold first_potential_auto. fold st1. fold F1. rewrite Hd1d.
     unfold auto_dly_of. rewrite Hd1a, Hd1b, Hd1c.
@@ -416,36 +426,34 @@ Proof.
   - exact Hnp.
   - exact Hns.
   - exact Hts.
-  - cbn [s_S s']. lia.
-  - exact HS0.
-  - cbn [s_epoch s_all s']. intros u Hu. apply in_app_or in Hu. apply in_or_app. destruct Hu; [left; auto|now right].
-  - rewrite Hd'last. cbn [s_all s']. destruct HLnew as [[_ [_ ->]]|[i [_ [Hi [-> _]]]]].
+  - rewrite HC', HA'. lia.
+  - rewrite HH', HA', HC', HendF, Hd'len. lia.
+  - unfold s', after_block_ss. cbn [s_epoch s_all]. intros u Hu. apply in_app_or in Hu. apply in_or_app. destruct Hu; [left; auto|now right].
+  - rewrite Hd'last. unfold s', after_block_ss. cbn [s_all]. destruct HLnew as [[_ [_ ->]]|[i [_ [Hi [-> _]]]]].
     + destruct Hlast; [now left|right; apply in_or_app; now left].
     + right. apply in_or_app. right. rewrite Htr. apply in_map_iff. eauto.
-  - rewrite Hd'last, HA'. destruct HLnew as [[_ [_ ->]]|[i [_ [Hi [-> _]]]]]; [lia|].
+  - rewrite Hd'last. unfold s_A. rewrite HA'. destruct HLnew as [[_ [_ ->]]|[i [_ [Hi [-> _]]]]]; [lia|].
     destruct (SR i Hi). unfold e. lia.
   - rewrite Hd'last, HendF. destruct HLnew as [[_ [_ ->]]|[i [_ [Hi [-> _]]]]]; [lia|].
     destruct (SR i Hi). lia.
-  - rewrite Hd'len, HA', HendF. cbn [s_npre s']. fold npre. unfold e. lia.
-  - cbn [s_ts s_S s_npre s_nsamp s_all s']. fold ts npre nsamp. intros Hte k Hk Hck.
-    rewrite HA' in Hk.
+  - unfold s_A. rewrite Hd'len, HA', HendF. change (s_npre s') with npre. unfold e. lia.
+  - change (s_ts s') with ts. change (s_nsamp s') with nsamp. change (s_all s') with (all_trigs b).
+    unfold s_A. rewrite HC', HA'. intros Hte k Hk Hck.
     assert (Hck' : edge_crit b k = true).
     { rewrite <- Hck. apply (edge_crit_ext (cur s') b []); try reflexivity.
       - cbn. now symmetry.
       - symmetry. apply app_nil_r.
-      - change (k - F0 < zlen (s_G s')). fold (s_end s') in HendF. unfold s_end in HendF. lia. }
-    destruct (HEC Hte k ltac:(rewrite HfirstC, Hdec; lia) Hck') as [t [Ht Hr]]. exists t. split; [|exact Hr].
-    unfold all_trigs in Ht. exact Ht.
-  - cbn [s_ts s_S s_npre s_nsamp s_all s']. fold ts npre nsamp. intros Hte k Hk Hck.
-    rewrite HA' in Hk.
+      - change (k - F0 < zlen (s_G s')). fold (s_end s') in HendF. unfold s_end in HendF. unfold e in Hk. lia. }
+    exact (HECg Hte k Hk Hck').
+  - change (s_ts s') with ts. change (s_nsamp s') with nsamp. change (s_all s') with (all_trigs b).
+    unfold s_A. rewrite HC', HA'. intros Hte k Hk Hck.
     assert (Hck' : level_crit b k = true).
     { rewrite <- Hck. apply (level_crit_ext (cur s') b []); try reflexivity.
       - cbn. now symmetry.
       - symmetry. apply app_nil_r.
-      - change (k - F0 < zlen (s_G s')). fold (s_end s') in HendF. unfold s_end in HendF. lia. }
-    destruct (HLC Hte k ltac:(rewrite HfirstC, Hdec; lia) Hck') as [t [Ht Hr]]. exists t. split; [|exact Hr].
-    unfold all_trigs in Ht. exact Ht.
-  - rewrite Hd'last. cbn [s_epoch s']. intros u Hu. apply in_app_or in Hu.
+      - change (k - F0 < zlen (s_G s')). fold (s_end s') in HendF. unfold s_end in HendF. unfold e in Hk. lia. }
+    exact (HLCg Hte k Hk Hck').
+  - rewrite Hd'last. unfold s', after_block_ss. cbn [s_epoch]. intros u Hu. apply in_app_or in Hu.
     assert (HLge : d_last d <= Lnew).
     { destruct HLnew as [[_ [_ ->]]|[i [_ [Hi [-> _]]]]]; [lia|].
       assert (d_last d - F1 <= i).
@@ -462,7 +470,7 @@ Proof.
     rewrite Htr in Hu. apply in_map_iff in Hu. destruct Hu as [j [<- Hj]].
     destruct HLnew as [[_ [Hnil _]]|[i [_ [Hi [-> Hmaxi]]]]]; [subst idx; destruct Hj|].
     specialize (Hmaxi j Hj). lia.
-  - rewrite Hd'last. cbn [s_epoch s']. intros q rest Hrev. rewrite rev_app_distr in Hrev.
+  - rewrite Hd'last. unfold s', after_block_ss. cbn [s_epoch]. intros q rest Hrev. rewrite rev_app_distr in Hrev.
     destruct HLnew as [[_ [Hnil ->]]|[i [Hlo [Hi [-> _]]]]].
     + rewrite Htr, Hnil in Hrev. cbn [map rev app] in Hrev. eapply Hlst; eassumption.
     + rewrite Htr in Hrev.
@@ -474,36 +482,73 @@ Qed.
 Lemma epoch_start_inv2 d' s npre' nsamp' ts' :
   Inv1 F0 p d' (s_G s) -> d_npre d' = npre' -> d_nsamp d' = nsamp' -> d_ts d' = ts' ->
   (d_last d' = far_past \/ In (d_last d') (s_all s)) -> d_last d' < s_end s ->
+  d_last d' < Z.max (s_acc s) (s_H s + npre') ->
+  F0 <= s_H s /\ s_H s <= s_end s /\ s_end s - zlen (st_data (d_stream d')) <= s_H s ->
   Inv2 d' (new_epoch F0 s npre' nsamp' ts').
 Proof.
-  intros HI Hnp Hns Hts Hlast HlastE.
+  intros HI Hnp Hns Hts Hlast HlastE HlastC [HH0 [HH1 HH2]].
   pose proof HI as [_ Hp3 Hs1 _ _ _ _]. rewrite Hnp in Hp3, Hs1. rewrite Hns in Hs1.
   pose proof (zlen_nonneg (s_G s)) as HG. pose proof (zlen_nonneg (st_data (d_stream d'))) as Hl.
-  assert (HA : s_A (new_epoch F0 s npre' nsamp' ts') = s_end s + npre').
-  { unfold s_A, s_end, new_epoch. cbn [s_S s_npre s_nsamp s_G]. lia. }
   split; try assumption.
-  - unfold s_end, new_epoch. cbn [s_S s_G]. lia.
-  - unfold new_epoch. cbn [s_S]. lia.
+  - unfold new_epoch. cbn [s_C s_acc]. lia.
+  - change (s_end (new_epoch F0 s npre' nsamp' ts')) with (s_end s). unfold new_epoch. cbn [s_C s_acc s_H].
+    repeat split; try assumption. now left.
   - intros u [].
-  - rewrite HA. lia.
-  - rewrite HA. unfold s_end, new_epoch. cbn [s_G s_npre]. unfold s_end in HlastE. lia.
-  - intros _ k Hk. rewrite HA in Hk. unfold new_epoch in Hk. cbn [s_S s_npre] in Hk. unfold s_end in Hk. lia.
-  - intros _ k Hk. rewrite HA in Hk. unfold new_epoch in Hk. cbn [s_S s_npre] in Hk. unfold s_end in Hk. lia.
+  - change (s_end (new_epoch F0 s npre' nsamp' ts')) with (s_end s). unfold s_A, new_epoch. cbn [s_acc s_npre]. lia.
+  - intros _ k Hk. unfold s_A, new_epoch in Hk. cbn [s_C s_acc] in Hk. lia.
+  - intros _ k Hk. unfold s_A, new_epoch in Hk. cbn [s_C s_acc] in Hk. lia.
   - intros u [].
   - intros q rest Hr. destruct rest; discriminate.
 Qed.
+
+Definition fresh_ss (npre nsamp : Z) (ts : tstate) : sstate :=
+  mkss npre nsamp (no_emulti ts) [] F0 (F0 + npre) (F0 + npre) [] [].
+Lemma init_as_epoch npre nsamp ts :
+  init_sstate npre nsamp ts F0 = new_epoch F0 (fresh_ss npre nsamp ts) npre nsamp (no_emulti ts).
+Proof. unfold new_epoch, init_sstate, fresh_ss. cbn [s_G s_all s_acc s_H]. now rewrite Z.max_id. Qed.
 
 Lemma fresh_inv2 npre nsamp ts :
   lengths_ok npre nsamp = true -> nsamp <= max_nsamp ->
   Inv2 (fresh_start npre nsamp ts) (init_sstate npre nsamp ts F0).
 Proof.
-  intros Hl Hm.
-  replace (init_sstate npre nsamp ts F0) with (new_epoch F0 (mkss npre nsamp (no_emulti ts) [] F0 [] []) npre nsamp (no_emulti ts)).
-  2:{ unfold new_epoch, init_sstate. cbn [s_G s_all]. f_equal. change (zlen (@nil Z)) with 0. lia. }
+  intros Hl Hm. rewrite init_as_epoch. pose proof Hl as Hl'. apply lengths_ok_iff in Hl'.
   apply epoch_start_inv2; try reflexivity.
   - apply fresh_inv1; assumption.
   - now left.
   - cbn. unfold far_past, s_end. cbn. lia.
+  - cbn. unfold far_past. lia.
+  - unfold s_end, fresh_ss. cbn. lia.
+Qed.
+
+Lemma cfg_trig_inv2 d s ts' :
+  Inv2 d s -> ts_emulti ts' = false -> Inv2 (cfg_trig d ts') (new_epoch F0 s (s_npre s) (s_nsamp s) ts').
+Proof.
+  intros HI HQ1. pose proof HI as [H1 H2 H3 H4 _ [HH0 [HH1 [HH2 _]]] _ _ _ _ _ _ _ _ _].
+  pose proof H1 as [_ Hp3 _ _ _ _ _].
+  apply epoch_start_inv2; try assumption; try reflexivity.
+  - apply cfg_trig_inv1; assumption.
+  - now left.
+  - cbn. unfold far_past, s_end. pose proof (zlen_nonneg (s_G s)). lia.
+  - cbn. unfold far_past. lia.
+  - repeat split; assumption.
+Qed.
+
+Lemma cfg_len_inv2 d s nsamp' npre' :
+  Inv2 d s -> nsamp' <= max_nsamp ->
+  Inv2 (fst (cfg_len d nsamp' npre'))
+       (if lengths_ok npre' nsamp' then new_epoch F0 s npre' nsamp' (s_ts s)
+        else new_epoch F0 s (s_npre s) (s_nsamp s) (s_ts s)).
+Proof.
+  intros HI HQ1. pose proof HI as [H1 H2 H3 H4 _ [HH0 [HH1 [HH2 _]]] _ H8 H9 H10 _ _ _ _ _].
+  unfold s_A in H9.
+  unfold cfg_len. destruct (lengths_ok npre' nsamp') eqn:El; cbn [fst].
+  - apply epoch_start_inv2; try assumption; try reflexivity.
+    + pose proof (cfg_len_inv1 F0 p d (s_G s) nsamp' npre' H1 HQ1 El) as Hx. unfold cfg_len in Hx. now rewrite El in Hx.
+    + cbn. lia.
+    + repeat split; assumption.
+  - apply epoch_start_inv2; try assumption.
+    + lia.
+    + repeat split; assumption.
 Qed.
 
 Lemma model_C02_4 npre nsamp ts ops :
@@ -518,17 +563,8 @@ Proof.
   - intros d s sg HI [HQ1 HQ2] Hf. cbn [op_ok] in HQ1.
     destruct (block_step d s sg HI HQ1 HQ2 Hf) as [d' [recs H]]. exists d', recs. exact H.
   - intros d s ts' HI [HQ1 _]. cbn [op_ok] in HQ1.
-    pose proof HI as [H1 H2 H3 H4 _ _ _ _ _ _ _ _ _ _ _].
-    apply epoch_start_inv2; try assumption; try reflexivity.
-    + apply cfg_trig_inv1; assumption.
-    + now left.
-    + cbn. unfold far_past, s_end. pose proof (zlen_nonneg (s_G s)). lia.
-  - intros d s nsamp' npre' HI [HQ1 _]. cbn [op_ok] in HQ1.
-    pose proof HI as [H1 H2 H3 H4 _ _ _ H8 _ H10 _ _ _ _ _].
-    unfold cfg_len. destruct (lengths_ok npre' nsamp') eqn:El; cbn [fst].
-    + apply epoch_start_inv2; try assumption; try reflexivity.
-      pose proof (cfg_len_inv1 F0 p d (s_G s) nsamp' npre' H1 HQ1 El) as Hx. unfold cfg_len in Hx. now rewrite El in Hx.
-    + apply epoch_start_inv2; assumption.
+    apply cfg_trig_inv2; assumption.
+  - intros d s nsamp' npre' HI [HQ1 _]. cbn [op_ok] in HQ1. apply cfg_len_inv2; assumption.
   - apply fresh_inv2; assumption.
   - cbn. now rewrite Z.add_0_r.
   - exact HQ.
@@ -649,36 +685,35 @@ Definition adly (s : sstate) : Z := Z.max (ts_autodelay (s_ts s)) (s_nsamp s).
 (* the pending auto trigger is never already decidable *)
 Record AutoInv (d : dsp) (s : sstate) : Prop := {
   a_empty : s_epoch s = [] ->
-            d_last d < s_S s + s_npre s /\
-            (afree (s_ts s) = true -> s_A F0 s <= Z.max (s_S s + s_npre s) (d_last d + adly s));
+            d_last d < s_C s /\
+            (afree (s_ts s) = true -> s_acc s <= Z.max (s_C s) (d_last d + adly s));
   a_nonempty : s_epoch s <> [] -> afree (s_ts s) = true ->
                s_end F0 s - (s_nsamp s - s_npre s) <= d_last d + adly s /\
                s_end F0 s - zlen (st_data (d_stream d)) + s_npre s <= d_last d + adly s
 }.
 
 Lemma auto_epoch_start d' s npre' nsamp' ts' :
-  3 <= npre' -> npre' + 1 <= nsamp' -> d_last d' < s_end F0 s -> AutoInv d' (new_epoch F0 s npre' nsamp' ts').
+  d_last d' < Z.max (s_acc s) (s_H s + npre') -> AutoInv d' (new_epoch F0 s npre' nsamp' ts').
 Proof.
-  intros Hp Hs HL. split.
-  - intros _. unfold new_epoch, s_A, s_end. cbn [s_S s_npre s_nsamp s_G]. unfold s_end in HL. split; [lia|]. intros _. lia.
+  intros HL. split.
+  - intros _. unfold new_epoch. cbn [s_C s_acc]. split; [exact HL|]. intros _. lia.
   - intros H. exfalso. apply H. reflexivity.
 Qed.
 
 Lemma block_step_auto d s sg :
   Inv2 F0 p sgn d s -> AutoInv d s -> seg_period sg = p -> seg_signed sg = sgn -> seg_first sg = F0 + zlen (s_G s) ->
   exists d' recs, process_block d sg = Ok (d', recs) /\
-    auto_gap (mkbi (s_npre s) (s_nsamp s) (s_ts s) F0 (s_G s ++ seg_data sg) sg (s_S s) (s_epoch s) (s_all s) recs) /\
-    AutoInv d' (mkss (s_npre s) (s_nsamp s) (s_ts s) (s_G s ++ seg_data sg) (s_S s)
-                     (s_epoch s ++ map r_frame recs) (s_all s ++ map r_frame recs)).
+    auto_gap (block_info F0 s sg recs) /\
+    AutoInv d' (after_block_ss F0 s sg (map r_frame recs)).
 Proof.
   intros [HI Hnp Hns Hts HS HS0 Hsub Hlast HlastA HlastE Hkeep Hedge Hlevel Hle Hlst] [AE AN] Hper Hsg Hfirst.
   destruct (process_block_spec F0 p d (s_G s) sg HI Hfirst Hper) as [E [L [A [idx [recs [Hpb [Hsc [HF [Hst [_ [_ HI']]]]]]]]]]].
   pose proof HI as [_ Hp3 Hs1 Hmax _ _ _].
   exists (after_block (appended d sg) idx), recs. split; [exact Hpb|].
   set (d1 := appended d sg) in *. set (st1 := d_stream d1) in *.
-  set (b := mkbi (s_npre s) (s_nsamp s) (s_ts s) F0 (s_G s ++ seg_data sg) sg (s_S s) (s_epoch s) (s_all s) recs).
-  set (s' := mkss (s_npre s) (s_nsamp s) (s_ts s) (s_G s ++ seg_data sg) (s_S s)
-                  (s_epoch s ++ map r_frame recs) (s_all s ++ map r_frame recs)).
+  set (b := block_info F0 s sg recs).
+  set (s' := after_block_ss F0 s sg (map r_frame recs)).
+  unfold s_A in HlastA, Hkeep.
   unfold adly in AE, AN.
   set (npre := s_npre s) in *. set (nsamp := s_nsamp s) in *. set (ts := s_ts s) in *.
   set (F1 := st_first st1). set (nd := zlen (st_data st1)).
@@ -687,7 +722,7 @@ Proof.
   pose proof (zlen_nonneg (seg_data sg)) as Hnn.
   assert (HF1 : F1 = s_end F0 s - lold) by (unfold F1, st1, d1, s_end; cbn; unfold lold; lia).
   assert (Hnd : nd = lold + zlen (seg_data sg)) by (unfold nd, st1, d1; cbn; now rewrite zlen_app).
-  assert (Hend' : s_end F0 s' = s_end F0 s + zlen (seg_data sg)) by (unfold s_end, s'; cbn [s_G]; rewrite zlen_app; lia).
+  assert (Hend' : s_end F0 s' = s_end F0 s + zlen (seg_data sg)) by (unfold s_end, s', after_block_ss; cbn [s_G]; rewrite zlen_app; lia).
   assert (HendF : s_end F0 s' = F1 + nd) by lia.
   assert (Hd1 : d_npre d1 = npre /\ d_nsamp d1 = nsamp /\ d_ts d1 = ts /\ d_last d1 = d_last d).
   { unfold d1. cbn. auto. }
@@ -696,7 +731,7 @@ Proof.
   set (e := nd + npre - nsamp).
   assert (Hdec : dec_end b = F1 + e).
   { change (dec_end b) with (s_end F0 s' - (nsamp - npre)). rewrite HendF. unfold e. lia. }
-  assert (HfirstC : first_cand b = s_S s + npre) by reflexivity.
+  assert (HfirstC : first_cand b = s_C s) by reflexivity.
   assert (Htr : map r_frame recs = map (fun i => F1 + i) idx).
   { apply (cut_frames st1 (d_npre d) (d_nsamp d)). exact HF. }
   assert (Htrigs : trigs b = map (fun i => F1 + i) idx) by (unfold trigs, bi_trigs; exact Htr).
@@ -726,13 +761,14 @@ Proof.
   { unfold after_block. cbn [d_stream set_stream set_last]. rewrite Hd1b. fold st1. unfold trim. fold nd.
     destruct (2 * nsamp + 10 >=? nd) eqn:E0; [fold nd; lia|].
     cbn [st_data]. rewrite zskipn_length; fold nd; lia. }
-  assert (Hkeep' : F1 + npre <= s_A F0 s) by (rewrite HF1; exact Hkeep).
-  assert (HA' : s_A F0 s' = Z.max (s_S s + npre) (F1 + e)).
-  { unfold s_A. cbn [s_S s_npre s_nsamp s']. fold npre nsamp. rewrite HendF. unfold e. lia. }
+  assert (Hkeep' : F1 + npre <= s_acc s) by (rewrite HF1; exact Hkeep).
+  assert (HA' : s_acc s' = Z.max (s_acc s) (F1 + e)).
+  { unfold s', after_block_ss. cbn [s_acc]. fold npre nsamp.
+    change (F0 + zlen (s_G s ++ seg_data sg)) with (s_end F0 s'). rewrite HendF. unfold e. f_equal. lia. }
   (* the pending candidate in frames, by cases on whether the epoch already has triggers *)
   assert (Hc0_ne : s_epoch s <> [] -> afree ts = true -> F1 + c0 = d_last d + dly).
   { intros H1 H2. destruct (AN H1 H2) as [_ H3]. rewrite <- HF1 in H3. lia. }
-  assert (Hc0_e : s_epoch s = [] -> afree ts = true -> F1 + c0 < s_S s + npre + dly /\ d_last d < s_S s + npre).
+  assert (Hc0_e : s_epoch s = [] -> afree ts = true -> F1 + c0 < s_C s + dly /\ d_last d < s_C s).
   { intros H1 H2. destruct (AE H1) as [H3 H4]. specialize (H4 H2). lia. }
   (* facts from the scan *)
   assert (Hscan : afree ts = true ->
@@ -788,16 +824,16 @@ Proof.
     destruct Hcov as [G1 G2]. split; [exact G1|]. intros _. unfold chain_last. exact G2.
   - (* the invariant after the block *)
     split.
-    + cbn [s_epoch s_S s_npre s_ts s_nsamp s']. fold npre nsamp ts. intros Hemp'.
+    + change (s_epoch s') with (s_epoch s ++ map r_frame recs). change (s_C s') with (s_C s). change (s_ts s') with ts. intros Hemp'.
       apply app_eq_nil in Hemp'. destruct Hemp' as [Hemp Hrec].
       assert (Hidx : idx = []).
       { rewrite Htr in Hrec. destruct idx; [reflexivity|discriminate]. }
       destruct (AE Hemp) as [H1 H2]. rewrite Hd'last.
       destruct HLnew as [[_ ->]|[i [Hi _]]]; [|rewrite Hidx in Hi; destruct Hi].
-      split; [exact H1|]. intros Haf. unfold adly. cbn [s_ts s_nsamp s']. fold ts nsamp dly. rewrite HA'.
+      split; [exact H1|]. intros Haf. unfold adly. change (s_ts s') with ts. change (s_nsamp s') with nsamp. fold dly. rewrite HA'.
       destruct (Hscan Haf) as [_ [_ [R3 _]]]. destruct (Hc0_e Hemp Haf) as [H3 H4]. specialize (H2 Haf).
       destruct R3 as [H|[x [Hx _]]]; [|rewrite Hidx in Hx; destruct Hx]. lia.
-    + cbn [s_epoch s_S s_npre s_ts s_nsamp s']. fold npre nsamp ts. intros Hne' Haf. unfold adly. cbn [s_ts s_nsamp s']. fold ts nsamp dly.
+    + change (s_epoch s') with (s_epoch s ++ map r_frame recs). change (s_ts s') with ts. change (s_nsamp s') with nsamp. change (s_npre s') with npre. intros Hne' Haf. unfold adly. change (s_ts s') with ts. change (s_nsamp s') with nsamp. fold dly.
       rewrite Hd'last, Hd'len, HendF.
       destruct (Hscan Haf) as [_ [_ [R3 R4]]].
       destruct HLnew as [[Hidx ->]|[i [Hi [-> Hmaxi]]]].
@@ -834,27 +870,15 @@ Proof.
     rewrite Hpb in Hpb'. inversion Hpb'; subst d'' recs'.
     exists d', recs. split; [exact Hpb|]. split; [exact (conj B1 (conj B2 (conj B3 (conj B4 B5))))|]. split; assumption.
   - intros d s ts' [HI HA] [HQ1 _]. cbn [op_ok] in HQ1.
-    pose proof HI as [H1 H2 H3 H4 _ _ _ _ _ H10 _ _ _ _ _].
-    pose proof H1 as [_ Hp3 Hs1 _ _ _ _].
-    split.
-    + apply epoch_start_inv2; try assumption; try reflexivity.
-      * apply cfg_trig_inv1; assumption.
-      * now left.
-      * cbn. unfold far_past, s_end. pose proof (zlen_nonneg (s_G s)). lia.
-    + apply auto_epoch_start; [lia|lia|]. cbn. unfold far_past, s_end. pose proof (zlen_nonneg (s_G s)). lia.
+    split; [apply cfg_trig_inv2; assumption|].
+    pose proof HI as [H1 H2 _ _ _ [HH0 _] _ _ _ _ _ _ _ _ _]. pose proof H1 as [_ Hp3 _ _ _ _ _].
+    apply auto_epoch_start. cbn. unfold far_past. lia.
   - intros d s nsamp' npre' [HI HA] [HQ1 _]. cbn [op_ok] in HQ1.
-    pose proof HI as [H1 H2 H3 H4 _ _ _ H8 _ H10 _ _ _ _ _].
-    pose proof H1 as [_ Hp3 Hs1 _ _ _ _].
-    unfold cfg_len. destruct (lengths_ok npre' nsamp') eqn:El; cbn [fst].
-    + split.
-      * apply epoch_start_inv2; try assumption; try reflexivity.
-        pose proof (cfg_len_inv1 F0 p d (s_G s) nsamp' npre' H1 HQ1 El) as Hx. unfold cfg_len in Hx. now rewrite El in Hx.
-      * apply lengths_ok_iff in El. apply auto_epoch_start; [lia|lia|exact H10].
-    + split; [apply epoch_start_inv2; assumption|]. apply auto_epoch_start; [lia|lia|exact H10].
+    split; [apply cfg_len_inv2; assumption|].
+    pose proof HI as [_ _ _ _ _ _ _ _ H9 _ _ _ _ _ _]. unfold s_A in H9.
+    unfold cfg_len. destruct (lengths_ok npre' nsamp'); cbn [fst]; apply auto_epoch_start; cbn [d_last]; lia.
   - split; [apply fresh_inv2; assumption|].
-    replace (init_sstate npre nsamp ts F0) with (new_epoch F0 (mkss npre nsamp (no_emulti ts) [] F0 [] []) npre nsamp (no_emulti ts)).
-    2:{ unfold new_epoch, init_sstate. cbn [s_G s_all]. f_equal. change (zlen (@nil Z)) with 0. lia. }
-    apply lengths_ok_iff in Hl. apply auto_epoch_start; [lia|lia|]. cbn. unfold far_past, s_end. cbn. lia.
+    rewrite init_as_epoch. apply lengths_ok_iff in Hl. apply auto_epoch_start. cbn. unfold far_past. lia.
   - cbn. now rewrite Z.add_0_r.
   - exact HQ.
   - exists bs. split; assumption.
@@ -888,6 +912,42 @@ Lemma refuted_b :
   C02_check 3 12 wit_none 0 (combine wit_b_ops (run_old (fresh_start 3 12 wit_none) wit_b_ops)) = false /\
   C02_check 3 12 wit_none 0 (combine wit_b_ops (run (fresh_start 3 12 wit_none) wit_b_ops)) = true.
 Proof. split; vm_compute; reflexivity. Qed.
+
+(* generic: a predicate J on the checker's state that every block re-establishes (given the block's judgement P)
+   and every control operation establishes from scratch *)
+Section AnnotateInd.
+Variable F0 : Z.
+Variable J : sstate -> Prop.
+Variables P Q : binfo -> Prop.
+Hypothesis J_block : forall s sg recs,
+  let b := block_info F0 s sg recs in
+  seg_first sg = F0 + zlen (s_G s) -> J s -> P b ->
+  Q b /\ J (after_block_ss F0 s sg (map r_frame recs)).
+Hypothesis J_epoch : forall s npre nsamp ts, J (new_epoch F0 s npre nsamp ts).
+
+Lemma annotate_ind : forall h s bs,
+  annotate F0 s h = Some bs -> J s -> (forall b, In b bs -> P b) -> forall b, In b bs -> Q b.
+Proof.
+  induction h as [|[o ob] h IH]; intros s bs Ha HJ HP b Hb.
+  - inversion Ha; subst. destruct Hb.
+  - destruct o as [sg|ts|nsamp npre]; destruct ob as [recs n f|err|]; cbn [annotate] in Ha; try discriminate.
+    + destruct (seg_first sg =? F0 + zlen (s_G s)) eqn:Ef; [|discriminate]. apply Z.eqb_eq in Ef.
+      destruct (annotate F0 _ h) as [bs'|] eqn:Ea; [|discriminate]. injection Ha as Ha. subst bs.
+      destruct (J_block s sg recs Ef HJ (HP _ (or_introl eq_refl))) as [HQ HJ'].
+      destruct Hb as [<-|Hb]; [exact HQ|].
+      eapply (IH _ _ Ea HJ'); [|exact Hb]. intros b' Hb'. apply HP. now right.
+    + destruct err; [discriminate|]. eapply (IH _ _ Ha); [apply J_epoch|exact HP|exact Hb].
+    + destruct err; (eapply (IH _ _ Ha); [apply J_epoch|exact HP|exact Hb]).
+Qed.
+End AnnotateInd.
+
+Lemma annotate_lo F0 h s bs :
+  annotate F0 s h = Some bs -> s_C s <= s_acc s -> forall b, In b bs -> bi_C b <= bi_lo b.
+Proof.
+  intros Ha HJ. apply (annotate_ind F0 (fun s => s_C s <= s_acc s) (fun _ => True) (fun b => bi_C b <= bi_lo b)) with (h := h) (s := s); auto.
+  - intros s0 sg recs b _ H _. split; [exact H|]. unfold after_block_ss. cbn [s_C s_acc]. lia.
+  - intros s0 npre nsamp ts. unfold new_epoch. cbn [s_C s_acc]. lia.
+Qed.
 
 (* ---------- the boolean checker versus the Prop judgements ---------- *)
 
@@ -943,10 +1003,10 @@ Proof.
     apply level_accountedb_iff. apply H; [reflexivity|lia|exact Hc].
 Qed.
 
-Lemma edge_complete_new_of b : edge_complete b -> edge_complete_new b.
-Proof. intros H Ht k Hk Hc. apply H; [exact Ht| |exact Hc]. unfold new_lo in Hk. lia. Qed.
-Lemma level_complete_new_of b : level_complete b -> level_complete_new b.
-Proof. intros H Ht k Hk Hc. apply H; [exact Ht| |exact Hc]. unfold new_lo in Hk. lia. Qed.
+Lemma edge_complete_new_of b : bi_C b <= bi_lo b -> edge_complete b -> edge_complete_new b.
+Proof. intros Hlo H Ht k Hk Hc. apply H; [exact Ht| |exact Hc]. unfold new_lo in Hk. unfold first_cand. lia. Qed.
+Lemma level_complete_new_of b : bi_C b <= bi_lo b -> level_complete b -> level_complete_new b.
+Proof. intros Hlo H Ht k Hk Hc. apply H; [exact Ht| |exact Hc]. unfold new_lo in Hk. unfold first_cand. lia. Qed.
 
 Lemma gaps_geb_iff d x l : gaps_geb d x l = true <-> gaps_ge d x l.
 Proof. revert x. induction l as [|y l IH]; intros x; cbn [gaps_geb gaps_ge]; [tauto|]. rewrite andb_true_iff, IH, Z.leb_le. tauto. Qed.
@@ -980,16 +1040,17 @@ Proof.
   rewrite !andb_true_iff, soundb_iff, edge_completeb_iff, level_completeb_iff, no_overlapb_iff, auto_gapb_iff. tauto.
 Qed.
 
-Lemma block_ok_new_of b : block_ok b -> block_ok_new b.
+Lemma block_ok_new_of b : bi_C b <= bi_lo b -> block_ok b -> block_ok_new b.
 Proof.
-  intros [H1 [H2 [H3 [H4 H5]]]].
-  exact (conj H1 (conj (edge_complete_new_of b H2) (conj (level_complete_new_of b H3) (conj H4 H5)))).
+  intros Hlo [H1 [H2 [H3 [H4 H5]]]].
+  exact (conj H1 (conj (edge_complete_new_of b Hlo H2) (conj (level_complete_new_of b Hlo H3) (conj H4 H5)))).
 Qed.
 
 Lemma C02_check_of_holds npre nsamp ts F0 h : C02_holds npre nsamp ts F0 h -> C02_check npre nsamp ts F0 h = true.
 Proof.
   intros [bs [Ha Hb]]. unfold C02_check. rewrite Ha. apply forallb_forall. intros b Hb'.
-  apply block_okb_iff, block_ok_new_of, Hb, Hb'.
+  apply block_okb_iff, block_ok_new_of; [|apply Hb, Hb'].
+  apply (annotate_lo F0 h _ bs Ha); [cbn; lia|exact Hb'].
 Qed.
 
 Lemma C02_check_sound npre nsamp ts F0 h :
@@ -1102,34 +1163,6 @@ Qed.
 
 (* ---------- from the per-block judgements to whole-epoch statements, for ANY observed history ---------- *)
 
-(* generic: a predicate J on the checker's state that every block re-establishes (given the block's judgement P)
-   and every control operation establishes from scratch *)
-Section AnnotateInd.
-Variable F0 : Z.
-Variable J : sstate -> Prop.
-Variables P Q : binfo -> Prop.
-Hypothesis J_block : forall s sg recs,
-  let b := mkbi (s_npre s) (s_nsamp s) (s_ts s) F0 (s_G s ++ seg_data sg) sg (s_S s) (s_epoch s) (s_all s) recs in
-  seg_first sg = F0 + zlen (s_G s) -> J s -> P b ->
-  Q b /\ J (mkss (s_npre s) (s_nsamp s) (s_ts s) (s_G s ++ seg_data sg) (s_S s)
-                 (s_epoch s ++ map r_frame recs) (s_all s ++ map r_frame recs)).
-Hypothesis J_epoch : forall s npre nsamp ts, J (new_epoch F0 s npre nsamp ts).
-
-Lemma annotate_ind : forall h s bs,
-  annotate F0 s h = Some bs -> J s -> (forall b, In b bs -> P b) -> forall b, In b bs -> Q b.
-Proof.
-  induction h as [|[o ob] h IH]; intros s bs Ha HJ HP b Hb.
-  - inversion Ha; subst. destruct Hb.
-  - destruct o as [sg|ts|nsamp npre]; destruct ob as [recs n f|err|]; cbn [annotate] in Ha; try discriminate.
-    + destruct (seg_first sg =? F0 + zlen (s_G s)) eqn:Ef; [|discriminate]. apply Z.eqb_eq in Ef.
-      destruct (annotate F0 _ h) as [bs'|] eqn:Ea; [|discriminate]. injection Ha as Ha. subst bs.
-      destruct (J_block s sg recs Ef HJ (HP _ (or_introl eq_refl))) as [HQ HJ'].
-      destruct Hb as [<-|Hb]; [exact HQ|].
-      eapply (IH _ _ Ea HJ'); [|exact Hb]. intros b' Hb'. apply HP. now right.
-    + destruct err; [discriminate|]. eapply (IH _ _ Ha); [apply J_epoch|exact HP|exact Hb].
-    + destruct err; (eapply (IH _ _ Ha); [apply J_epoch|exact HP|exact Hb]).
-Qed.
-End AnnotateInd.
 
 (* successive elements at least / at most d apart *)
 Definition chain_ge (d : Z) (l : list Z) : Prop := match l with [] => True | t :: l' => gaps_ge d t l' end.
@@ -1168,7 +1201,7 @@ Proof.
       - cbn [chain_ge] in *. apply gaps_ge_app; [exact HJ|].
         destruct (rev l ++ [t]) as [|q r] eqn:Er; [destruct (rev l); discriminate|].
         destruct (rev l) as [|q' r']; cbn [app] in Er; inversion Er; subst; exact Hno. }
-    split; [exact HQ|]. cbn [s_ts s_nsamp s_epoch]. exact HQ.
+    split; [exact HQ|]. exact HQ.
   - intros s0 npre nsamp ts _. exact I.
   - intros _. rewrite He. exact I.
 Qed.
@@ -1182,7 +1215,7 @@ Lemma auto_gap_epoch F0 h s bs :
 Proof.
   intros Ha He HP.
   apply (annotate_ind F0 (fun s => ts_auto (s_ts s) && (ts_autoveto (s_ts s) <=? 0) = true ->
-                                   gaps_le (Z.max (ts_autodelay (s_ts s)) (s_nsamp s) + s_nsamp s) (s_S s + s_npre s) (s_epoch s))
+                                   gaps_le (Z.max (ts_autodelay (s_ts s)) (s_nsamp s) + s_nsamp s) (s_C s) (s_epoch s))
                       auto_gap
                       (fun b => auto_free b = true ->
                                 gaps_le (auto_bound b) (first_cand b) (epoch_trigs b) /\
@@ -1193,7 +1226,7 @@ Proof.
       apply gaps_le_app; [exact HJ|]. unfold chain_start in H1. exact H1. }
     split.
     + intros Haf. split; [exact (HQ Haf)|]. destruct (Hag Haf) as [_ H2]. exact H2.
-    + cbn [s_ts s_nsamp s_epoch s_S s_npre]. exact HQ.
+    + exact HQ.
   - intros s0 npre nsamp ts _. exact I.
   - intros _. rewrite He. exact I.
 Qed.
@@ -1207,10 +1240,10 @@ Variables (F0 : Z) (sgn : bool).
 Definition lens_ok (b : binfo) : Prop := 0 <= bi_npre b <= bi_nsamp b /\ seg_signed (bi_seg b) = sgn.
 
 Definition SInv (s : sstate) : Prop :=
-  0 <= s_npre s <= s_nsamp s ->
-  (ts_edge (s_ts s) = true -> forall k, s_S s + s_npre s <= k < s_A F0 s ->
+  (s_acc s = s_C s \/ s_acc s <= s_end F0 s) /\
+  (ts_edge (s_ts s) = true -> forall k, s_C s <= k < s_acc s ->
      edge_crit (cur F0 sgn s) k = true -> acc_edge (s_all s) (s_nsamp s) k) /\
-  (ts_level (s_ts s) = true -> forall k, s_S s + s_npre s <= k < s_A F0 s ->
+  (ts_level (s_ts s) = true -> forall k, s_C s <= k < s_acc s ->
      level_crit (cur F0 sgn s) k = true -> acc_level (s_all s) (s_nsamp s) k).
 
 Lemma complete_from_new h s bs :
@@ -1221,18 +1254,23 @@ Proof.
   intros Ha HJ HP.
   apply (annotate_ind F0 SInv (fun b => lens_ok b /\ edge_complete_new b /\ level_complete_new b)
                       (fun b => edge_complete b /\ level_complete b)) with (h := h) (s := s); try assumption.
-  - intros s0 sg recs b Hf HJ0 [[Hlen Hsg] [HEn HLn]].
+  - intros s0 sg recs b Hf [Hacc [HE0 HL0]] [[Hlen Hsg] [HEn HLn]].
     change (bi_npre b) with (s_npre s0) in Hlen. change (bi_nsamp b) with (s_nsamp s0) in Hlen.
     change (seg_signed (bi_seg b)) with (seg_signed sg) in Hsg.
-    destruct (HJ0 Hlen) as [HE0 HL0].
     pose proof (zlen_nonneg (seg_data sg)) as Hnn.
-    assert (Hnl : new_lo b = s_A F0 s0).
-    { unfold new_lo, first_cand, s_A, s_end. cbn [bi_S bi_npre bi_nsamp bi_seg b]. rewrite Hf. reflexivity. }
+    assert (Hnl : new_lo b = s_acc s0) by reflexivity.
+    assert (Hfc : first_cand b = s_C s0) by reflexivity.
     assert (Hdec : dec_end b = s_end F0 s0 + zlen (seg_data sg) - (s_nsamp s0 - s_npre s0)).
-    { unfold dec_end, bi_end, s_end. cbn [bi_F0 bi_G bi_nsamp bi_npre b]. rewrite zlen_app. lia. }
-    assert (HEC : edge_complete b).
-    { intros Hte k [Hk1 Hk2] Hck. destruct (Z.lt_ge_cases k (s_A F0 s0)) as [HkA|HkA].
-      - assert (Hke : k < s_end F0 s0) by (unfold s_A in HkA; change (first_cand b) with (s_S s0 + s_npre s0) in Hk1; lia).
+    { unfold dec_end, bi_end, s_end, b, block_info. cbn [bi_F0 bi_G bi_nsamp bi_npre]. rewrite zlen_app. lia. }
+    set (s' := after_block_ss F0 s0 sg (map r_frame recs)).
+    assert (Hend' : s_end F0 s' = s_end F0 s0 + zlen (seg_data sg)).
+    { unfold s_end, s', after_block_ss. cbn [s_G]. rewrite zlen_app. lia. }
+    assert (HA' : s_acc s' = Z.max (s_acc s0) (dec_end b)).
+    { unfold s', after_block_ss. cbn [s_acc]. rewrite Hdec. unfold s_end. rewrite zlen_app. f_equal. lia. }
+    assert (HECg : ts_edge (s_ts s0) = true -> forall k, s_C s0 <= k < Z.max (s_acc s0) (dec_end b) ->
+                   edge_crit b k = true -> edge_accounted b k).
+    { intros Hte k [Hk1 Hk2] Hck. destruct (Z.lt_ge_cases k (s_acc s0)) as [HkA|HkA].
+      - assert (Hke : k < s_end F0 s0) by lia.
         assert (Hck' : edge_crit (cur F0 sgn s0) k = true).
         { rewrite <- Hck. symmetry. apply (edge_crit_ext (cur F0 sgn s0) b (seg_data sg)); try reflexivity.
           - cbn. exact Hsg.
@@ -1240,9 +1278,10 @@ Proof.
         destruct (HE0 Hte k ltac:(split; [exact Hk1|exact HkA]) Hck') as [t [Ht Hr]].
         exists t. split; [unfold all_trigs; apply in_or_app; now left|exact Hr].
       - apply HEn; [exact Hte|rewrite Hnl; lia|exact Hck]. }
-    assert (HLC : level_complete b).
-    { intros Hte k [Hk1 Hk2] Hck. destruct (Z.lt_ge_cases k (s_A F0 s0)) as [HkA|HkA].
-      - assert (Hke : k < s_end F0 s0) by (unfold s_A in HkA; change (first_cand b) with (s_S s0 + s_npre s0) in Hk1; lia).
+    assert (HLCg : ts_level (s_ts s0) = true -> forall k, s_C s0 <= k < Z.max (s_acc s0) (dec_end b) ->
+                   level_crit b k = true -> level_accounted b k).
+    { intros Hte k [Hk1 Hk2] Hck. destruct (Z.lt_ge_cases k (s_acc s0)) as [HkA|HkA].
+      - assert (Hke : k < s_end F0 s0) by lia.
         assert (Hck' : level_crit (cur F0 sgn s0) k = true).
         { rewrite <- Hck. symmetry. apply (level_crit_ext (cur F0 sgn s0) b (seg_data sg)); try reflexivity.
           - cbn. exact Hsg.
@@ -1250,29 +1289,29 @@ Proof.
         destruct (HL0 Hte k ltac:(split; [exact Hk1|exact HkA]) Hck') as [t [Ht Hr]].
         exists t. split; [unfold all_trigs; apply in_or_app; now left|exact Hr].
       - apply HLn; [exact Hte|rewrite Hnl; lia|exact Hck]. }
-    split; [split; assumption|].
-    intros _. set (s' := mkss _ _ _ _ _ _ _).
-    assert (HA' : s_A F0 s' = Z.max (s_S s0 + s_npre s0) (dec_end b)).
-    { unfold s_A, s_end, s'. cbn [s_S s_npre s_nsamp s_G]. rewrite Hdec, zlen_app. unfold s_end. lia. }
-    split.
-    + cbn [s_ts s_S s_npre s_nsamp s_all s']. intros Hte k Hk Hck. rewrite HA' in Hk.
-      assert (Hck' : edge_crit b k = true).
-      { rewrite <- Hck. apply (edge_crit_ext (cur F0 sgn s') b []); try reflexivity.
-        - cbn. now symmetry.
-        - symmetry. apply app_nil_r.
-        - change (k - F0 < zlen (s_G s0 ++ seg_data sg)). rewrite zlen_app. unfold s_end in Hdec. lia. }
-      destruct (HEC Hte k ltac:(change (first_cand b) with (s_S s0 + s_npre s0); lia) Hck') as [t [Ht Hr]].
-      exists t. split; [exact Ht|exact Hr].
-    + cbn [s_ts s_S s_npre s_nsamp s_all s']. intros Hte k Hk Hck. rewrite HA' in Hk.
-      assert (Hck' : level_crit b k = true).
-      { rewrite <- Hck. apply (level_crit_ext (cur F0 sgn s') b []); try reflexivity.
-        - cbn. now symmetry.
-        - symmetry. apply app_nil_r.
-        - change (k - F0 < zlen (s_G s0 ++ seg_data sg)). rewrite zlen_app. unfold s_end in Hdec. lia. }
-      destruct (HLC Hte k ltac:(change (first_cand b) with (s_S s0 + s_npre s0); lia) Hck') as [t [Ht Hr]].
-      exists t. split; [exact Ht|exact Hr].
-  - intros s0 npre nsamp ts Hl. unfold s_A, s_end, new_epoch in *. cbn [s_S s_npre s_nsamp s_G s_ts] in *.
-    split; intros _ k Hk; lia.
+    split; [split|].
+    + intros Hte k Hk Hck. rewrite Hfc in Hk. apply (HECg Hte k); [lia|exact Hck].
+    + intros Hte k Hk Hck. rewrite Hfc in Hk. apply (HLCg Hte k); [lia|exact Hck].
+    + fold s'. split; [|split].
+      * rewrite HA', Hend'. change (s_C s') with (s_C s0). lia.
+      * change (s_ts s') with (s_ts s0). change (s_C s') with (s_C s0). change (s_nsamp s') with (s_nsamp s0).
+        change (s_all s') with (all_trigs b). rewrite HA'. intros Hte k Hk Hck.
+        assert (Hck' : edge_crit b k = true).
+        { rewrite <- Hck. apply (edge_crit_ext (cur F0 sgn s') b []); try reflexivity.
+          - cbn. now symmetry.
+          - symmetry. apply app_nil_r.
+          - change (k - F0 < zlen (s_G s')). unfold s_end in Hend', Hdec, Hacc. lia. }
+        exact (HECg Hte k Hk Hck').
+      * change (s_ts s') with (s_ts s0). change (s_C s') with (s_C s0). change (s_nsamp s') with (s_nsamp s0).
+        change (s_all s') with (all_trigs b). rewrite HA'. intros Hte k Hk Hck.
+        assert (Hck' : level_crit b k = true).
+        { rewrite <- Hck. apply (level_crit_ext (cur F0 sgn s') b []); try reflexivity.
+          - cbn. now symmetry.
+          - symmetry. apply app_nil_r.
+          - change (k - F0 < zlen (s_G s')). unfold s_end in Hend', Hdec, Hacc. lia. }
+        exact (HLCg Hte k Hk Hck').
+  - intros s0 npre nsamp ts. unfold SInv, new_epoch. cbn [s_C s_acc s_ts].
+    split; [now left|]. split; intros _ k Hk; lia.
 Qed.
 End CompleteInd.
 
@@ -1290,8 +1329,7 @@ Proof.
   intros Hlens b Hin.
   assert (Hcomp : edge_complete b /\ level_complete b).
   { apply (complete_from_new F0 sgn _ _ _ Ha); [| |exact Hin].
-    - intros Hl. unfold s_A, s_end, init_sstate. cbn [s_S s_npre s_nsamp s_G]. change (zlen (@nil Z)) with 0.
-      cbn [s_npre s_nsamp init_sstate] in Hl. split; intros _ k Hk; lia.
+    - unfold SInv, init_sstate. cbn [s_C s_acc s_ts]. split; [now left|]. split; intros _ k Hk; lia.
     - intros b' Hb'. destruct (Hb b' Hb') as [_ [H2 [H3 _]]]. split; [apply Hlens, Hb'|]. split; assumption. }
   destruct (Hb b Hin) as [H1 [_ [_ [H4 H5]]]]. destruct Hcomp as [H2 H3].
   split; [exact (conj H1 (conj H2 (conj H3 (conj H4 H5))))|]. split.
